@@ -669,7 +669,14 @@ func (e *Engine) mapLookup(st *State, m *types.Map, ref, key *Term) (Val, *Term)
 	zero := zeroVal(m.Elem())
 	for i, lf := range ls {
 		arr := st.heap.get(p+"val."+lf.Path, nestedSort(lf.Sort, 2))
-		out[i] = Ite(has, Select(Select(arr, ref), key), zero[i])
+		sel := Select(Select(arr, ref), key)
+		if sel.Op == "select" && !sel.hasBV {
+			// the stored value is an unknown of its type: same range / sign facts as any heap read
+			for _, f := range leafAssume(sel, lf) {
+				e.fact(st, f)
+			}
+		}
+		out[i] = Ite(has, sel, zero[i])
 	}
 	return st.normVal(out), st.norm(has)
 }
